@@ -3,6 +3,7 @@ use vcommon::Args;
 
 mod c01;
 mod c02;
+mod c06;
 mod c22;
 mod c23;
 mod c28;
@@ -15,6 +16,7 @@ fn main() {
     match args.stage.as_str() {
         "c01" => c01::run(&args),
         "c02" => c02::run(&args),
+        "c06" => c06::run(&args),
         "c22" => c22::run(&args),
         "c23" => c23::run(&args),
         "c28" => c28::run(&args),
